@@ -14,7 +14,8 @@ ASSUMPTIONS = ["source injections are additive oracle arrays in the model", "sup
 TRUSTED = ["correspondence harness"]
 LEVEL_TEXT = ("Theorem (every scene of the model incl. any list of CPML layers, any number of steps): forward is linear in (E, H, psi accumulators, source "
               "injections) cell by cell. Detector records (linear: field/phasor; quadratic: energy/Poynting) are decided by the implementation predicate; the "
-              "model is tied to forward() by per-step correspondence including CPML. The fully anisotropic lossless tiers (model/YeeFull.v) have the same theorem for PML-free scenes (C10_forward_full_tensor_linear).")
+              "model is tied to forward() by per-step correspondence including CPML. The fully anisotropic tiers (model/YeeFull.v) have the same theorem for PML-free scenes: lossless (C10_forward_full_tensor_linear) and "
+              "conductive (C10_forward_lossy_tensor_linear; C10_lossy_matrices_solve: the adjugate matrices solve M1 A = M2).")
 LEVEL_NOTE = "Detector-record linearity / quadratic scaling is measured on the implementation, not proved; sources are additive oracles whose amplitude factor scales the injection."
 TECHNIQUE = "Coq proof (pointwise ring identities lifted through ghost reads and the CPML loop) + differential superposition runs"
 QUAD = ["energy", "poynting"]
